@@ -936,7 +936,11 @@ func Script(asserts []*Term, prelude string, getModelOf []*Term) string {
 	sb.WriteString("(set-option :produce-models true)\n(set-logic ALL)\n")
 	sb.WriteString(preludeDT)
 	sort.Slice(vars, func(i, j int) bool { return vars[i].Name < vars[j].Name })
+	predeclared := preludeDeclared(prelude)
 	for _, v := range vars {
+		if predeclared[v.Name] {
+			continue
+		}
 		fmt.Fprintf(&sb, "(declare-fun %s () %s)\n", smtSym(v.Name), v.Sort)
 	}
 	var an []string
@@ -944,7 +948,6 @@ func Script(asserts []*Term, prelude string, getModelOf []*Term) string {
 		an = append(an, n)
 	}
 	sort.Strings(an)
-	predeclared := preludeDeclared(prelude)
 	for _, n := range an {
 		if predeclared[n] {
 			continue
